@@ -1184,6 +1184,63 @@ class SStr:
     def count(self, sub):
         raise NotModelled("SStr.count")
 
+    # ---- text methods (fork on symbolic characters where needed)
+    @staticmethod
+    def _simplify(items):
+        if all(isinstance(c, str) for c in items):
+            return "".join(items)
+        return SStr(items)
+
+    @staticmethod
+    def _isin(c, chars):
+        if isinstance(c, str):
+            return c in chars
+        return bool(SBool(z3.Or([toint(c) == ord(w) for w in chars])))
+
+    def strip(self, chars=None):
+        ws = " \t\n\r\x0b\x0c" if chars is None else chars
+        items = list(self.items)
+        while items and SStr._isin(items[0], ws):
+            items.pop(0)
+        while items and SStr._isin(items[-1], ws):
+            items.pop()
+        return SStr._simplify(items)
+
+    def startswith(self, prefix):
+        if len(prefix) > len(self.items):
+            return False
+        r = self[:len(prefix)]
+        return r == prefix if isinstance(r, SStr) else r == prefix
+
+    def endswith(self, suffix):
+        if len(suffix) > len(self.items):
+            return False
+        return SStr(self.items[len(self.items) - len(suffix):]) == suffix
+
+    def split(self, sep=None, maxsplit=-1):
+        if sep is None or len(sep) != 1:
+            raise NotModelled("SStr.split(%r)" % (sep,))
+        parts, cur, n = [], [], 0
+        for c in self.items:
+            if (maxsplit < 0 or n < maxsplit) and SStr._isin(c, sep):
+                parts.append(SStr._simplify(cur))
+                cur = []
+                n += 1
+            else:
+                cur.append(c)
+        parts.append(SStr._simplify(cur))
+        return parts
+
+    def lower(self):
+        out = []
+        for c in self.items:
+            if isinstance(c, str):
+                out.append(c.lower())
+            else:
+                e = toint(c)
+                out.append(SInt(z3.If(z3.And(e >= 65, e <= 90), e + 32, e)))
+        return SStr._simplify(out)
+
     def __str__(self):
         return "".join(c if isinstance(c, str) else "?" for c in self.items)
 
@@ -1194,6 +1251,34 @@ class SStr:
         """the concrete text under a model evaluator"""
         return "".join(c if isinstance(c, str) else chr(int(ev(c)))
                        for c in self.items)
+
+
+def sformat(lit, *args, **kw):
+    """"literal".format(...) where arguments may be SStr (plain ``{}``
+    fields only for those)"""
+    if not any(isinstance(a, SStr) for a in list(args) + list(kw.values())):
+        return lit.format(*args, **kw)
+    import string
+    out = SStr([])
+    auto = 0
+    for text, field, spec, conv in string.Formatter().parse(lit):
+        out = out + text
+        if field is None:
+            continue
+        if field == "":
+            val = args[auto]
+            auto += 1
+        elif field.isdigit():
+            val = args[int(field)]
+        else:
+            val = kw[field]
+        if isinstance(val, SStr):
+            if spec or conv:
+                raise NotModelled("format spec on a symbolic string")
+            out = out + val
+        else:
+            out = out + format(val, spec or "")
+    return out
 
 
 def sjoin(sep, parts):
